@@ -73,7 +73,7 @@ theorem c04_scoped_split_no_version (scope name : Text)
     fields (regenerated from the source) — keys outside dependency sections are never checked -/
 theorem c04_npm_only_sections (content : Text) (tree : Node) (p : PkgInfo) (h : p ∈ packageJson content tree) :
     ∃ doc secPair k sec entry, tree.child0 = some doc ∧ doc.kind = "object" ∧ secPair ∈ doc.children ∧ secPair.kind = "pair" ∧
-      secPair.childByField "key" = some k ∧ strIn Generated.dependencyFields (unquoteDq (nodeText content k)) = true ∧
+      secPair.childByField "key" = some k ∧ strIn Generated.dependencyFields (jsonStr (nodeText content k)) = true ∧
       secPair.childByField "value" = some sec ∧ sec.kind = "object" ∧ entry ∈ sec.children ∧ npmEntry content entry = some p := by
   unfold packageJson at h
   cases hd : tree.child0 with
@@ -93,7 +93,7 @@ theorem c04_npm_only_sections (content : Text) (tree : Node) (p : PkgInfo) (h : 
         | none => simp [hkey] at hv
         | some k =>
           simp only [hkey] at hv
-          by_cases hin : strIn Generated.dependencyFields (unquoteDq (nodeText content k)) = true
+          by_cases hin : strIn Generated.dependencyFields (jsonStr (nodeText content k)) = true
           · simp only [hin, Bool.not_true, Bool.false_eq_true, if_false] at hv
             cases hval : secPair.childByField "value" with
             | none => simp [hval] at hv
@@ -108,7 +108,7 @@ theorem c04_npm_only_sections (content : Text) (tree : Node) (p : PkgInfo) (h : 
                 exact ⟨doc, secPair, k, v, entry, rfl, hk, hsp, hpk, hkey, hin, hval, hvo, he, hentry⟩
               · have : (v.kind == "object") = false := by simpa using hvo
                 simp [this] at hv
-          · have : strIn Generated.dependencyFields (unquoteDq (nodeText content k)) = false := by simpa using hin
+          · have : strIn Generated.dependencyFields (jsonStr (nodeText content k)) = false := by simpa using hin
             simp [this] at hv
       · have : (secPair.kind != "pair") = true := by simpa using hpk
         simp [this] at hv
@@ -121,7 +121,7 @@ theorem c04_npm_sections : Generated.dependencyFields = ["dependencies", "devDep
 /-- **non-registry specifiers are never checked**: a value that starts with one of the prefixes
     `catalog:` `workspace:` `file:` `link:` `git+` `git:` `git@` `github:` `http:` `https:` yields nothing -/
 theorem c04_npm_nonregistry_never (content : Text) (child v : Node) (hv : child.childByField "value" = some v)
-    (hc : nonRegistry (unquoteDq (nodeText content v)) = true) : npmEntry content child = none := by
+    (hc : nonRegistry (jsonStr (nodeText content v)) = true) : npmEntry content child = none := by
   unfold npmEntry
   split
   · rfl
@@ -140,10 +140,10 @@ theorem c04_npm_nonregistry_never (content : Text) (child v : Node) (hv : child.
 theorem c04_npm_entry (content : Text) (child k v : Node) (hk : child.kind = "pair")
     (hkey : child.childByField "key" = some k) (hv : child.childByField "value" = some v) (hs : v.kind = "string")
     (hcl : closedString (nodeText content v) = true)
-    (hc : nonRegistry (unquoteDq (nodeText content v)) = false) :
+    (hc : nonRegistry (jsonStr (nodeText content v)) = false) :
     (npmEntry content child).map (fun p => (p.name, p.version, p.commitHash)) =
-      some ((npmNameVersion (unquoteDq (nodeText content k)) (unquoteDq (nodeText content v))).1,
-            (npmNameVersion (unquoteDq (nodeText content k)) (unquoteDq (nodeText content v))).2, none) := by
+      some ((npmNameVersion (jsonStr (nodeText content k)) (jsonStr (nodeText content v))).1,
+            (npmNameVersion (jsonStr (nodeText content k)) (jsonStr (nodeText content v))).2, none) := by
   have hk' : (child.kind != "pair") = false := by simp [hk]
   have hs' : (v.kind != "string") = false := by simp [hs]
   simp only [npmEntry, hk', hkey, hv, hs', hcl, hc, Bool.not_true, Bool.false_eq_true, if_false, Option.map_some]
@@ -228,7 +228,7 @@ theorem c04_npm_nonregistry_examples :
 
 /-- **only `jsr:` specifiers**: an import that does not start with `jsr:` (npm:, https:, relative paths) is never checked -/
 theorem c04_jsr_only_jsr (content : Text) (child v : Node) (hv : child.childByField "value" = some v)
-    (h : stripPrefix Sites.jsrPrefix (unquoteDq (nodeText content v)) = none) : denoEntry content child = none := by
+    (h : stripPrefix Sites.jsrPrefix (jsonStr (nodeText content v)) = none) : denoEntry content child = none := by
   unfold denoEntry
   split
   · rfl
